@@ -255,7 +255,16 @@ def run_case(spec, j):
         D = e2.pair_distance(pairs)
         pred = e2.predict(pairs)
       except Exception as e:
-        j.skip('C16.via-fit', 'raised-%s' % type(e).__name__)
+        if name.startswith('SDML') and isinstance(e, RuntimeError):
+          j.skip('C16.via-fit', 'sdml-solver-failure')
+        else:
+          # the same estimator was fitted on these pairs a moment ago with
+          # the default calibration: valid calibration_params must not make
+          # fit (or the classifier fitted that way) raise
+          j.violated('C16.via-fit', dict(det0, strategy=strat,
+                                         raised=repr(e)[:300]),
+                     mechanism='fit-with-calibration_params-raised-' +
+                     type(e).__name__)
         continue
     cuts = all_cutoffs(D, lab)
     c = confusion(pred, lab)
